@@ -100,3 +100,14 @@ Theorem C12_source_positions_total : forall bit b st fuel, bv_inv b -> pi_reach 
   Val (bv_words b, bv_nbits b, cp', cwp', cw', fst (pi_next bit b st)).
 Proof. exact g_pi_next_total. Qed.
 Print Assumptions C12_source_positions_total.
+
+(* bv.iter() (regenerated) then next / len (regenerated) *)
+From QwtModel Require Import FnsIterCtorsOk.
+Theorem C12_source_bits_public : forall b, bv_inv b ->
+  g_bv_iter (chunks 8 (bv_words b)) (bv_nbits b) = Val (bv_words b, bv_nbits b, 0) /\
+  g_bvm_iter (chunks 8 (bv_words b)) (bv_nbits b) = Val (bv_words b, bv_nbits b, 0) /\
+  forall i, g_bvit_next (bv_words b) (bv_nbits b) i
+            = Val (bv_words b, bv_nbits b, (if i <? len (bv_abs b) then i + 1 else i), nthN (bv_abs b) i) /\
+            (i <= len (bv_abs b) -> g_bvit_len (bv_nbits b) i = Val (len (bv_abs b) - i)).
+Proof. exact g_bv_iter_public. Qed.
+Print Assumptions C12_source_bits_public.
